@@ -16,6 +16,8 @@ sig(verifiers) where `verifiers` lists the keys of the universe (thread keys, th
 public key the Signature of the produced URL verifies -- computed by the harness with `cryptography`
 directly from the URL's own query string (receiver's view), not with pysaml2."""
 import base64
+import json
+import os
 import threading
 import traceback
 import urllib.parse
@@ -30,8 +32,9 @@ AUDIT = "PysamlModel/Audit/C20.lean"
 DRIVER = "Drivers/C20.lean"
 CORRESPONDENCE = ("Drivers/C20.lean (Signer.run on the completed schedule) vs real threads gated at "
                   "RSACrypto.get_signer / RSASigner.sign / RSASigner.verify")
-RULE = ("all interleavings of 2 logical threads (1-3 operations each) and of 3 threads (quick: 1 operation each "
-        "complete, larger programs sampled; thorough: up to 2 operations each complete) at the gate points, "
+RULE = ("all interleavings of 2 logical threads (1-3 operations each; thorough also 4) and of 3 threads (quick: up to "
+        "4 operations in total complete, 2 operations each sampled; thorough: 2 operations each complete) at the "
+        "gate points, 2-5 threads with 1-4 operations each sampled, "
         "entities with distinct keys / threads of one entity, mixed and refused algorithms, sign and verify "
         "operations, plus truncated / over-long / out-of-range schedules; non-trivial = some thread's "
         "get_signer and its sign/verify are separated by another thread's action (model class interleaved|race)")
@@ -51,7 +54,7 @@ ASSUMPTIONS = [
 EXHAUSTIVE = False
 PARALLEL = True
 
-TIMEOUT = 60.0
+TIMEOUT = 20.0
 
 SHA1 = "http://www.w3.org/2000/09/xmldsig#rsa-sha1"
 SHA224 = "http://www.w3.org/2001/04/xmldsig-more#rsa-sha224"
@@ -74,6 +77,7 @@ _pub = {}
 _fix = {}
 _tls = threading.local()
 _gated = {}
+_broken = []
 
 
 # ------------------------------------------------------------------ setup
@@ -386,6 +390,42 @@ def _thread_main(sched, t, th, universe, events, errors):
 
 
 def run_impl(case):
+    """Every case runs in a child forked from the state reached by setup(): its outcome is a function of the case
+    alone (process-wide state left behind by earlier cases cannot leak in), so a replay file reproduces."""
+    if os.environ.get("C20_NOFORK"):
+        return _run_case(case)
+    if _broken:  # a gate hand-over already timed out in this process: do not wait again for every case
+        raise RuntimeError("gate scheduler unusable: " + _broken[0])
+    r, w = os.pipe()
+    pid = os.fork()
+    if pid == 0:
+        status = 1
+        try:
+            os.close(r)
+            try:
+                out = {"ok": _run_case(case)}
+            except BaseException as e:  # reported to the parent, which raises (harness error)
+                out = {"err": "%s: %s" % (type(e).__name__, e), "tb": traceback.format_exc()[-1500:]}
+            with os.fdopen(w, "w") as f:
+                json.dump(out, f)
+            status = 0
+        finally:
+            os._exit(status)
+    os.close(w)
+    with os.fdopen(r) as f:
+        data = f.read()
+    os.waitpid(pid, 0)
+    if not data:
+        raise RuntimeError("case child process died without an answer")
+    out = json.loads(data)
+    if "err" in out:
+        if out["err"].startswith("HarnessTimeout"):
+            _broken.append(out["err"])
+        raise RuntimeError("case child failed: %s\n%s" % (out["err"], out.get("tb", "")))
+    return out["ok"]
+
+
+def _run_case(case):
     import saml2.sigver as sv
     from saml2 import pack
 
@@ -624,17 +664,19 @@ def gen_cases(rng, tier):
         yield from full(["rr", "rr", "rr"], "pair", "mixed", limit=8000)
         yield from full(["rrr", "rr", "r"], "distinct", "same", limit=6000)
     else:
-        yield from full(["ss", "s", "v"], "distinct", "same", limit=250)
-        yield from full(["ss", "ss", "ss"], "distinct", "same", limit=400)
-        yield from full(["rr", "rr", "rr"], "pair", "mixed", limit=400)
-        yield from full(["rrr", "rr", "r"], "distinct", "same", limit=200)
+        yield from full(["ss", "s", "v"], "distinct", "same")
+        yield from full(["sv", "s", "s"], "pair", "same")
+        yield from full(["ss", "ss", "ss"], "distinct", "same", limit=2500)
+        yield from full(["sv", "vs", "ss"], "distinct", "same", limit=1500)
+        yield from full(["rr", "rr", "rr"], "pair", "mixed", limit=1500)
+        yield from full(["rrr", "rr", "r"], "distinct", "same", limit=800)
 
     # ---- more threads / longer programs, sampled
-    for _ in range(40 if thorough else 8):
+    for _ in range(60 if thorough else 20):
         n = rng.randint(2, 5)
         shapes = ["r" * rng.randint(1, 4) for _ in range(n)]
-        yield from full(shapes, rng.choice(["distinct", "pair", "same"]) if n <= 5 else "pair",
-                        rng.choice(["same", "mixed"]), limit=60 if thorough else 25)
+        yield from full(shapes, rng.choice(["distinct", "pair", "same"]), rng.choice(["same", "mixed"]),
+                        limit=60 if thorough else 25)
 
 
 # ------------------------------------------------------------------ verdict helpers
